@@ -19,6 +19,7 @@ package main
 import (
 	"fmt"
 	"go/types"
+	"os"
 	"strings"
 )
 
@@ -379,6 +380,7 @@ func (r *rwRT) ruleSig() {
 	// one result): on no path may F end up recorded as a generator — whatever the recording looks like (a map
 	// update, a helper call, a store into the rewriter). With a proper signature the recording must happen.
 	yieldObj := Sym{Name: "obj:Yield", NN: true, Uniq: true}
+	fromObj := Sym{Name: "obj:YieldFrom", NN: true, Uniq: true}
 	for _, tc := range []struct {
 		name     string
 		isIter   bool
@@ -390,19 +392,25 @@ func (r *rwRT) ruleSig() {
 		{"two results", true, 2, false},
 		{"one result of the iterator type", true, 1, true},
 	} {
-		for _, fkind := range []string{"FuncDecl", "FuncLit"} { // a generator may be a declaration or a function literal
+		for _, fkind := range []string{"FuncDecl", "FuncLit", "FuncDecl+YieldFrom"} { // a declaration or a literal; its only yield may be a delegation
 			tc := tc
+			apiObj := AV(yieldObj)
+			if strings.HasSuffix(fkind, "+YieldFrom") {
+				fkind = "FuncDecl"
+				apiObj = fromObj
+				tc.name += " (only a delegation inside)"
+			}
 			tc.name = tc.name + map[string]string{"FuncDecl": "", "FuncLit": " (function literal)"}[fkind]
 			d := r.newApplyDriver(fn, []AV{Sym{Name: "r", NN: true}, Sym{Name: "pkg", NN: true}, Sym{Name: "f", NN: true}},
 				rwConfig{root: fn, boundaries: map[string]bool{"collectYieldFunc": false}},
-				map[string]AV{"r.yieldFunc": yieldObj, "r.yieldFromFunc": Sym{Name: "obj:YieldFrom", NN: true, Uniq: true}},
+				map[string]AV{"r.yieldFunc": yieldObj, "r.yieldFromFunc": fromObj},
 				func(cc *CallCtx) []Answer {
 					if cc.Fn == nil {
 						return nil
 					}
 					switch cc.Fn.Name() {
 					case "Callee":
-						return []Answer{{Ret: []AV{yieldObj}, NoEvent: true}}
+						return []Answer{{Ret: []AV{apiObj}, NoEvent: true}}
 					case "isIterator":
 						return []Answer{{Ret: []AV{mkBool(tc.isIter)}, NoEvent: true}}
 					case "Len":
@@ -411,6 +419,11 @@ func (r *rwRT) ruleSig() {
 						}
 					case "TypeOf":
 						tp := r.w.importedPkg(pathRw, "go/types")
+						// the type of the function itself is a signature; the type of anything else asked about
+						// (the operand of a delegation) is some named type
+						if tp != nil && len(cc.Args) > 0 && !strings.HasPrefix(argLabel(cc.Args[len(cc.Args)-1]), "F") {
+							return []Answer{{Ret: []AV{Dyn{T: types.NewPointer(tp.Scope().Lookup("Named").Type()), V: Sym{Name: "operandType", NN: true}}}, NoEvent: true}}
+						}
 						if tp != nil {
 							return []Answer{{Ret: []AV{Dyn{T: types.NewPointer(tp.Scope().Lookup("Signature").Type()), V: Sym{Name: "sig", NN: true}}}, NoEvent: true}}
 						}
@@ -418,8 +431,8 @@ func (r *rwRT) ruleSig() {
 					return nil
 				})
 			// the sets the collector fills are re-initialised for every file before it runs (RW.FILEPASSES decides that)
-		d.in.EmptyMaps = func(key string) bool { return strings.HasPrefix(key, "r.") }
-		F := r.node(fkind, "F")
+			d.in.EmptyMaps = func(key string) bool { return strings.HasPrefix(key, "r.") }
+			F := r.node(fkind, "F")
 			call := r.node("CallExpr", "call")
 			marked, completed := false, false
 			sts := []*State{d.base}
@@ -441,13 +454,37 @@ func (r *rwRT) ruleSig() {
 				}
 				sts = next
 			}
+			allMarked := true
 			for _, st := range sts {
 				completed = true
+				this := false
 				for _, e := range st.Events[len(d.base.Events):] {
-					if e.Kind == "mapupdate" || (e.Kind == "store" && strings.HasPrefix(e.Target, "r.")) {
-						marked = true
+					// an update of a set the rewriter holds (not of a map local to the collector, e.g. its visited cache)
+					if e.Kind == "mapupdate" && len(e.Args) == 3 {
+						if ob := st.Obj(unwrap(e.Args[0])); ob != nil && strings.HasPrefix(ob.Site, "emptymap:") {
+							marked, this = true, true
+						}
+					}
+					if e.Kind == "store" && strings.HasPrefix(e.Target, "r.") {
+						marked, this = true, true
 					}
 				}
+				if !this {
+					allMarked = false
+				}
+				if os.Getenv("VERIF_DEBUG_SIG") != "" {
+					var evs []string
+					for _, e := range st.Events[len(d.base.Events):] {
+						evs = append(evs, shortEvent(e))
+						if e.Kind == "mapupdate" {
+							evs = append(evs, fmt.Sprintf("<%T %s key=%s>", e.Args[0], e.Args[0], argLabel(e.Args[1])))
+						}
+					}
+					fmt.Fprintf(os.Stderr, "SIG %s marked=%v labels=%v events=%v\n", tc.name, this, st.Labels, evs)
+				}
+			}
+			if tc.wantMark && !allMarked {
+				marked = false // a proper generator is recorded on every path, whatever further type queries answer
 			}
 			r.account(d.in)
 			if tc.wantMark {
